@@ -51,7 +51,7 @@ META = {
     ],
 }
 NSHARDS = 16
-KINDS = ("calm", "up", "spike", "wick", "moon", "down", "premdrift")
+KINDS = ("calm", "up", "spike", "wick", "moon", "down", "premdrift", "flatstep", "flatlp")
 F = O.F
 Q18 = Decimal(1).scaleb(-18)
 AMT_REL = Fraction(1, 10**30)
@@ -121,10 +121,21 @@ class World14(W.SqueethWorld):
             elif kind == "premdrift":
                 eth *= math.exp(rng.gauss(0.0006, 0.001))
                 prem *= math.exp(drift)
-            nf *= 1 - rng.uniform(0, 2e-6)
-            if rng.random() < 0.03:
-                nf *= 1 - rng.uniform(0, 2e-4)
-            prem *= math.exp(rng.gauss(0, 0.0015))
+            if kind == "flatstep":
+                # ETH and the premium stand still (identical TWAP bar after bar); the normalisation factor is a step
+                # function (one or two jumps): a vault that one liquidation does not cure has to be looked at again in
+                # bars whose market data repeat the previous bar's
+                if i == jump_at or (i == jump_at + 4 and jump_x < 2):
+                    nf *= jump_x
+            elif kind == "flatlp":
+                # ETH and the normalisation factor stand still; only the pool price (premium) moves, i.e. only the
+                # composition of LP collateral changes
+                prem *= math.exp(rng.gauss(0.004, 0.02))
+            else:
+                nf *= 1 - rng.uniform(0, 2e-6)
+                if rng.random() < 0.03:
+                    nf *= 1 - rng.uniform(0, 2e-4)
+                prem *= math.exp(rng.gauss(0, 0.0015))
             e = eth
             if kind == "wick" and i % 11 == 7:
                 e = eth * 1.35
